@@ -507,17 +507,51 @@ def _hard(cls):
                                      or "HTLC signatures" in cls or "htlc sig" in cls)
 
 
+# results an API call made by the SENDER of an update may legitimately give: the
+# constraint classes plus the rejections the malformed stream provokes on purpose
+SENDER_REJECTIONS = CONSTRAINT_CLASSES + ("unknown_htlc", "dup_modify", "fee_not_initiator",
+                                          "other:invalid_preimage", "other:fee_exceeds_balance",
+                                          "no_pending")
+# results a sign / revoke / delivery / resync step may legitimately give
+PROTOCOL_OUTCOMES = CONSTRAINT_CLASSES + ("no_pending",)
+
+
+def _bad_result(op, res):
+    """Is `res` of a step with this op a property failure?  add/settle/fail/malformed/fee:
+    only hard classes and panics (they are refusals without a state change, checked by
+    rejected_no_change).  sign / revoke / deliver: EVERYTHING that is not ok or a documented
+    constraint outcome - in particular any `other:...` (e.g. SignNextCommitment's 'parent
+    entry ... had zero ... add height')."""
+    if res == "ok":
+        return False
+    if _hard(res):
+        return True
+    k = op[0]
+    if k in ("add", "fee") + RESOLVE:
+        return res not in SENDER_REJECTIONS
+    if k in ("sign", "revoke", "deliver"):
+        return res not in PROTOCOL_OUTCOMES
+    if k == "cut":
+        return res in ("reload_failed", "sync_failed")
+    if k in ("crash", "side"):
+        return True
+    return False
+
+
 def no_errors(row):
-    """No invalid signature, no data-loss / commit-sync verdict, no reload error, no
-    panic between the two honest peers.  (Other aborts - e.g. a fee update that makes
-    the opener unable to sign - are listed by soft_aborts().)"""
+    """Between the two honest peers: no invalid signature, no data-loss / commit-sync
+    verdict, no reload error, no panic, and NO error of any other kind from sign, revoke,
+    a delivery or the resync.  The only tolerated non-ok results are the documented
+    constraint outcomes of validateCommitmentSanity (below_reserve, max_htlcs, max_pending,
+    below_min, invalid_amt, fee_floor), no_window / no_pending, and - for the calls that
+    create an update - the refusals the malformed stream provokes (see soft_abort())."""
     fails = []
     for i, st in enumerate(row["steps"]):
         ex = st.get("extra") or {}
-        if _hard(st["res"]) or st["res"] in ("reload_failed", "sync_failed"):
+        if _bad_result(st["op"], st["res"]):
             fails.append("step %d %s: %s" % (i, st["op"], st["res"]))
         for d in ex.get("delivered") or []:
-            if d[2] != "ok":
+            if d[2] != "ok" and d[2] not in PROTOCOL_OUTCOMES:
                 fails.append("step %d cut: delivering %s to %s: %s" % (i, d[1], d[0], d[2]))
         for k in ("err_a", "err_b", "err"):
             # ProcessChanSyncMsg may sign (owed revocation + owed commitment); a
@@ -528,11 +562,19 @@ def no_errors(row):
             if isinstance(st.get(p), dict) and "dump_failed" in st[p]:
                 fails.append("step %d: dump of %s failed: %s" % (i, p, st[p]["dump_failed"]))
     ab = row.get("aborted")
-    if ab and (_hard(ab) or ab.startswith(("chansyncmsg", "dump", "revoke:",
-                                            "deliver_rev", "deliver_sig", "cut_deliver_sig",
-                                            "cut_deliver_rev"))):
+    if ab and not fails and not _soft_reason(ab):
         fails.append("case aborted: %s" % ab)
     return fails
+
+
+def _soft_reason(ab):
+    """Abort reasons that are constraint outcomes: '<op>:<constraint class>' of a sign or a
+    delivery, and 'sync_error' (its class is judged through err_a / err_b)."""
+    if ab == "sync_error":
+        return True
+    head, _, cls = ab.partition(":")
+    return (head == "sign" or head.startswith(("deliver_", "cut_deliver_"))) \
+        and cls in CONSTRAINT_CLASSES
 
 
 def known_signature(row):
